@@ -12,7 +12,7 @@ EXHAUSTIVE = {'quick': False, 'thorough': False}
 ASSUMES = ['formulas rejected late (syntax error or illegal character after a valid prefix) are replayed on the '
            'LR model with the regenerated PLY tables: the exact state is compared',
            'unreadable files: JSON files with an unknown child/root id, a bad level or a parent before its '
-           'children, loaded through dd.autoref']
+           'children, also files that are not reduced (two identifiers for one node), loaded through dd.autoref']
 
 
 def bad_calls(M, rng, held):
@@ -283,14 +283,18 @@ def failed_retry(ctx, n, kind, P='C17'):
         M.op('gc', None)
 
 
-def json_faults(ctx, n, receiver, fault):
+def json_faults(ctx, n, receiver, fault, alias=False, P='C17'):
     """a JSON file that cannot be loaded (dd.autoref): the receiver keeps
     exact counts, its live Functions keep their functions, and a later load
-    of the intact file works"""
+    of the intact file works.  With `alias` the file is NOT reduced: a second identifier
+    describes a node that the file lists already (and a later line or root may use it), which
+    the loader accepts (`dump` never writes such a file), so that the references the loader takes
+    per identifier and the nodes it creates are not in one-to-one correspondence.  `P` is the
+    prefix of the violation keys (the stream is also used by C08)."""
     from ..impl import JNodes
     from .C12 import abuild, by_name
     rng = ctx.rng
-    s = ctx.session(f'json fault={fault} n={n} recv={receiver}')
+    s = ctx.session(f'json fault={fault} n={n} recv={receiver}' + (' alias' if alias else ''))
     A = 'a0'
     s.op(A, 'new', {v: v for v in range(n)})
     hs = [abuild(s, A, rng.getrandbits(1 << n) | 2, n) for _ in range(2)]
@@ -301,6 +305,22 @@ def json_faults(ctx, n, receiver, fault):
     ns = [tuple(x) for x in ns]
     if len(ns) < 2:
         return
+    if alias:
+        for _ in range(rng.choice([1, 2])):
+            i = rng.randrange(len(ns))
+            k, l, lo, hi = ns[i]
+            K = 7000 + len(ns)
+            ns.insert(i + 1, (K, l, lo, hi))
+            # a later line (or a root) may reach the node through the second identifier
+            users = [j for j in range(i + 2, len(ns))
+                     if any(isinstance(x, int) and abs(x) == k for x in ns[j][2:])]
+            if users and rng.random() < 0.6:
+                j = rng.choice(users)
+                kk, ll, a, b = ns[j]
+                sub = lambda x: (K if x > 0 else -K) if isinstance(x, int) and abs(x) == k else x  # noqa: E731
+                ns[j] = (kk, ll, sub(a), sub(b))
+            elif rng.random() < 0.5:
+                rt = [((K if x > 0 else -K) if isinstance(x, int) and abs(x) == k else x) for x in rt]
     R = A if receiver == 'same' else 'a1'
     if R != A:
         s.op(R, 'new', {} if receiver == 'fresh' else {v: n - 1 - v for v in range(n)})
@@ -332,8 +352,8 @@ def json_faults(ctx, n, receiver, fault):
         bad_ns[i] = (k, l, flip(lo), flip(hi))
     got = s.op(R, 'json_load', {v: l for v, l in lv}, bad_rt, JNodes(bad_ns), False)
     case = lambda: dict(stream=s.label, lines=list(s.lines))  # noqa: E731
-    ctx.case(('json-fault', fault, receiver, n, tuple(bad_ns)), True)
-    ctx.count('json-fault:' + fault)
+    ctx.case(('json-fault', fault, receiver, n, tuple(bad_ns), tuple(bad_rt)), True)
+    ctx.count('json-fault:' + fault + (':alias' if alias else ''))
     if got is not None:
         ctx.count('json-fault-accepted:' + fault)
         for h in got:
@@ -343,15 +363,15 @@ def json_faults(ctx, n, receiver, fault):
         ext[u] = ext.get(u, 0) + 1
     bad = oracle.check_table(r._bdd, external=ext)
     if bad:
-        ctx.violation('C17:json-counts', f'after the rejected JSON load ({fault}): {bad[:3]}', case)
+        ctx.violation(P + ':json-counts', f'after the rejected JSON load ({fault}): {bad[:3]}', case)
     for h, t in before.items():
         if by_name(r._bdd, H[R][h].node, n) != t:
-            ctx.violation('C17:reference-changed', f'live Function {h} changed after the rejected load', case)
+            ctx.violation(P + ':reference-changed', f'live Function {h} changed after the rejected load', case)
             break
     # the intact file still loads, and everything can be released
     ok = s.op(R, 'json_load', {v: l for v, l in lv}, rt, JNodes(ns), False)
     if ok is None:
-        ctx.violation('C17:later-call', 'the intact file is rejected after the failed load', case)
+        ctx.violation(P + ':later-call', 'the intact file is rejected after the failed load', case)
     else:
         for h in ok:
             s.op(R, 'drop', h)
@@ -359,7 +379,7 @@ def json_faults(ctx, n, receiver, fault):
         s.op(R, 'drop', h)
     s.op(R, 'gc')
     if set(r._bdd._succ) != {1}:
-        ctx.violation('C17:json-counts', f'nodes {sorted(r._bdd._succ)} survive a collection with no live Function', case)
+        ctx.violation(P + ':json-counts', f'nodes {sorted(r._bdd._succ)} survive a collection with no live Function', case)
     if R != A:
         for h in list(H[A]):
             s.op(A, 'drop', h)
@@ -979,3 +999,10 @@ def run(ctx):
     from . import C08
     for i in range(4 if q else 40):
         C08.full_table_autoref(ctx, i, rng.choice([3, 4]), reordering=(i % 4 == 3), P='C17')
+    # unreadable JSON files whose readable part is NOT reduced (two identifiers for one node):
+    # the loader takes one reference per identifier and must release exactly those when the
+    # load fails (round-21 seed: the clean-up releasing once per distinct node)
+    for fault in ('unknown-root', 'unknown-child', 'bad-level', 'negated-node'):
+        for receiver in ('fresh', 'same', 'in-use'):
+            for _ in range(2 if q else 8):
+                json_faults(ctx, rng.choice([2, 3]), receiver, fault, alias=True)
